@@ -213,7 +213,7 @@ def _native_decorated(values):
 
 CONTRACTS += [
     Contract(
-        id='C16.decorated', target='taskchain.cache:cached.__call__.<decorated>', props={'C16': 'decisive'},
+        id='C16.decorated', feas_ms=300, target='taskchain.cache:cached.__call__.<decorated>', props={'C16': 'decisive'},
         inputs={'self': cached_obj(), 'method': Abs(MethodIface, 'method'), 'obj': Abs(ObjIface, 'obj'),
                 'args': S(Seq(Val), 'args'), 'kw': SymDict(Str, Val, 'kwargs'),
                 'force_cache': S(Bool, 'force_cache'), 'only_cache': S(Bool, 'only_cache'),
